@@ -175,18 +175,18 @@ func (m *model) classify(ptr uint32, mem *simmem.Memory) string {
 // ---- configuration ------------------------------------------------------------
 
 type config struct {
-	heapBase     uint32
-	initPages    uint32
-	maxPages     uint32
-	growNum      int
-	growDen      int
-	dataStyle    int // 0 plain (non-zero even bytes), 1 arbitrary, 2 hostile (header images)
-	staticStyle  int // 0 zero, 1 arbitrary, 2 header images
-	profile      int // 0 small, 1 every order, 2 fill to 4 GiB
-	invalidPer   int // an invalid free with probability 1/invalidPer per op (0 = never)
-	oversizePer  int
-	afterPoison  int
-	nOps         int
+	heapBase    uint32
+	initPages   uint32
+	maxPages    uint32
+	growNum     int
+	growDen     int
+	dataStyle   int // 0 plain (non-zero even bytes), 1 arbitrary, 2 hostile (header images)
+	staticStyle int // 0 zero, 1 arbitrary, 2 header images
+	profile     int // 0 small, 1 every order, 2 fill to 4 GiB
+	invalidPer  int // an invalid free with probability 1/invalidPer per op (0 = never)
+	oversizePer int
+	afterPoison int
+	nOps        int
 }
 
 func pagesFor(x uint64) uint32 { return uint32((x + simmem.PageSize - 1) / simmem.PageSize) }
@@ -315,6 +315,11 @@ func runAlloc(k *kernel.K) {
 	} else {
 		k.Nontriv = false
 	}
+	if !s.m.suspect && !s.m.poisoned {
+		k.Probe("run-without-any-allocator-error")
+	}
+	k.Info["allocs_ok"] = float64(s.m.allocOK)
+	k.Info["frees_ok"] = float64(s.m.freeOK)
 	k.Info["live_at_end"] = float64(len(s.m.live))
 	k.Info["mem_chunks"] = float64(s.mem.Chunks())
 }
@@ -534,6 +539,10 @@ func (s *sim) free(ptr uint32) {
 		}
 	}
 	s.lastOp = "Deallocate"
+	if b == nil {
+		// a rejected free may still have written before it failed; name the kind of pointer in the class
+		s.lastOp = "Deallocate-of-invalid-pointer/" + kind
+	}
 	err := s.a.Deallocate(s.mem, ptr)
 	if err == nil {
 		s.failStreak = 0
